@@ -17,7 +17,8 @@ Init ==
           /\ in = [kind |-> "construct", tree |-> Fields[k].tree, fi |-> k, choice |-> c, devmode |-> dm, silent |-> sl, spelling |-> sp, form |-> fm]
      \/ \E ci \in 1..Len(CrossCases) : in = [kind |-> "cross", tree |-> CrossCases[ci].tree, ci |-> ci]
      \/ \E k \in 1..Len(Fields) : /\ Fields[k].alt # "" /\ Fields[k].tree # "current"
-                                  /\ Fields[k].path \in {"season.march", "weekday_weekend.friday", "uncertainty_alpha", "cvrmse_threshold", "scaling_method", "min_daily_training_hours"}
+                                  /\ Fields[k].path \in {"season.march", "weekday_weekend.friday", "uncertainty_alpha", "cvrmse_threshold", "scaling_method", "min_daily_training_hours",
+                                                           "supplemental_time_series_columns"}
                                   /\ in = [kind |-> "stored", tree |-> Fields[k].tree, fi |-> k]
   /\ out = [res |-> "pending"] /\ pc = "call"
 Expected(i) ==
